@@ -50,6 +50,22 @@ class Frame:
                             st.value.args[0].id == self.p_id:
                         self.idx = st.targets[0].id
                         self.idx_stmt = st
+        # ... or a lookup whose result is parked in an attribute and read back
+        self.idx_cached: Optional[str] = None
+        if self.idx is None:
+            attr = None
+            for st in walk_no_nested(self.fn):
+                if isinstance(st, ast.Assign) and isinstance(st.value, ast.Call) and dotted(
+                        st.value.func) == "self._can_rx_ids.index" and len(st.targets) == 1 and \
+                        isinstance(st.targets[0], ast.Attribute) and isinstance(
+                            st.targets[0].value, ast.Name) and st.targets[0].value.id == "self":
+                    attr = st.targets[0].attr
+            for st in walk_no_nested(self.fn):
+                if attr is not None and isinstance(st, ast.Assign) and len(st.targets) == 1 and \
+                        isinstance(st.targets[0], ast.Name) and dotted(st.value) == f"self.{attr}":
+                    self.idx = st.targets[0].id
+                    self.idx_stmt = st
+                    self.idx_cached = attr
         if self.idx is None:
             raise AnalysisError("decode_rx_frame: no `idx = self._can_rx_ids.index(rx_id)`")
         # enum values
@@ -620,6 +636,27 @@ def c12_state_indexing(prog: Program, fr: Frame, run: Run) -> None:
                 run.violation(R, "IsoTpStateMachine.decode_rx_frame", f"callback-{x.func.attr}",
                               f"`{ast.unparse(x)}` does not pass the receive-ID index first",
                               loc(fr.f, x))
+    cache_sound = False
+    if fr.idx_cached is not None:
+        # a remembered lookup is sound when the remembered ID is only updated after a lookup that
+        # succeeded (the store is dominated by the lookup; a failed lookup leaves through the
+        # handler) and the read-back is guarded by `rx_id != self.<remembered id>`
+        look = [st for st in walk_no_nested(fr.fn) if isinstance(st, ast.Assign) and isinstance(
+            st.value, ast.Call) and dotted(st.value.func) == "self._can_rx_ids.index"]
+        keys = [st for st in walk_no_nested(fr.fn) if isinstance(st, ast.Assign) and isinstance(
+            st.value, ast.Name) and st.value.id == fr.p_id and isinstance(
+                st.targets[0], ast.Attribute)]
+        if look and keys:
+            ln = fr.cfg.node_of(look[0])
+            cache_sound = all(fr.cfg.dominates(ln, fr.cfg.node_of(k)) for k in keys) and all(
+                any(ast.unparse(k.targets[0]) in ast.unparse(t) and fr.p_id in ast.unparse(t)
+                    for t, _p in fr.cfg.branch_conditions(ln)) for k in keys)
+    if fr.idx_cached is not None and not cache_sound:
+        run.violation(R, "IsoTpStateMachine.decode_rx_frame", "channel-from-earlier-frame",
+                      f"the telegram index is read back from self.{fr.idx_cached}, which an "
+                      "EARLIER frame may have filled: a frame whose lookup is skipped or fails "
+                      "(unknown ID seen twice in a row) is filed under the channel of another "
+                      "receive ID", loc(fr.f, fr.idx_stmt), stmt_key(fr.idx_stmt))
     # unknown IDs return before any state access
     cfg = fr.cfg
     idx_node = cfg.node_of(fr.idx_stmt)
@@ -637,7 +674,10 @@ def c12_state_indexing(prog: Program, fr: Frame, run: Run) -> None:
     # handler of the lookup returns
     ok = False
     for t in walk_no_nested(fr.fn):
-        if isinstance(t, ast.Try) and any(s is fr.idx_stmt for s in t.body):
+        if isinstance(t, ast.Try) and any(
+                s is fr.idx_stmt or (isinstance(s, ast.Assign) and isinstance(
+                    s.value, ast.Call) and dotted(s.value.func) == "self._can_rx_ids.index")
+                for s in t.body):
             for h in t.handlers:
                 if h.body and isinstance(h.body[-1], ast.Return):
                     ok = True
@@ -909,6 +949,53 @@ def c13_consumers(prog: Program, run: Run) -> None:
                                   f"a member of {ch[-1]}: values without a member (reserved PCI "
                                   "types) raise ValueError out of decode_rx_frame",
                                   loc(f, x), stmt_key(_stmt_of(f.node, x)))
+    # callback arguments that the state machine passes as None: no override may use them as
+    # numbers (numeric format spec, arithmetic, ordering) without a None test
+    sm = prog.func("IsoTpStateMachine.decode_rx_frame")
+    none_args: Dict[str, Set[int]] = {}
+    for x in walk_no_nested(sm.node):
+        if isinstance(x, ast.Call) and isinstance(x.func, ast.Attribute) and \
+                x.func.attr in hooks:
+            for i, a in enumerate(x.args):
+                if isinstance(a, ast.Constant) and a.value is None:
+                    none_args.setdefault(x.func.attr, set()).add(i)
+    for f in cbs:
+        for i in sorted(none_args.get(f.node.name, ())):
+            ps = f.params()
+            if i + 1 >= len(ps):
+                continue
+            pn = ps[i + 1]
+            cfg_ = CFG(f.node)
+            for x in walk_no_nested(f.node):
+                use = None
+                if isinstance(x, ast.FormattedValue) and x.format_spec is not None and \
+                        isinstance(x.value, ast.Name) and x.value.id == pn and re.search(
+                            r"[xXobdeEfFgGn%c]$", "".join(
+                                v.value for v in x.format_spec.values
+                                if isinstance(v, ast.Constant))):
+                    use = x
+                if isinstance(x, ast.BinOp) and any(isinstance(y, ast.Name) and y.id == pn
+                                                    for y in (x.left, x.right)):
+                    use = x
+                if isinstance(x, ast.Compare) and any(isinstance(o, (ast.Lt, ast.LtE, ast.Gt,
+                                                                     ast.GtE)) for o in x.ops) \
+                        and any(isinstance(y, ast.Name) and y.id == pn
+                                for y in [x.left] + x.comparators):
+                    use = x
+                if use is None:
+                    continue
+                st = _stmt_of(f.node, use)
+                try:
+                    node = cfg_.nodes[cfg_.node_of(st)]
+                except Exception:  # noqa: BLE001
+                    continue
+                if _none_guarded(cfg_, node, st, use, pn):
+                    continue
+                run.violation(R, f.qual, f"none-argument-{pn}",
+                              f"decode_rx_frame calls {f.node.name}() with None for `{pn}`, but "
+                              f"`{ast.unparse(use)[:60]}` uses it as a number: TypeError out of "
+                              "decode_rx_frame for a stray consecutive frame",
+                              loc(f, use), stmt_key(st))
     if n < 3:
         run.error(R, "fewer than 3 payload uses found in the telegram consumers (anchor moved)")
 
@@ -1288,7 +1375,10 @@ def c13_no_raise(prog: Program, fr: Frame, run: Run) -> None:
     # the id lookup's ValueError is caught
     t_ok = False
     for t in walk_no_nested(fr.fn):
-        if isinstance(t, ast.Try) and any(s is fr.idx_stmt for s in t.body):
+        if isinstance(t, ast.Try) and any(
+                s is fr.idx_stmt or (isinstance(s, ast.Assign) and isinstance(
+                    s.value, ast.Call) and dotted(s.value.func) == "self._can_rx_ids.index")
+                for s in t.body):
             for h in t.handlers:
                 if h.type is None or ast.unparse(h.type) in ("ValueError", "Exception"):
                     t_ok = True
@@ -1354,7 +1444,45 @@ def c13_typestate(prog: Program, fr: Frame, run: Run) -> None:
     f = fr.f
     cfg = fr.cfg
     state_writers(prog, fr, run, R)
+    _state_before_yield(fr, run, R)
     _c13_typestate_rest(prog, fr, run, R)
+
+
+def _state_before_yield(fr: Frame, run: Run, R: str) -> None:
+    """decode_rx_frame is a generator: what follows a `yield` only runs when (and if) the
+    consumer asks for the next element -- after it handled the telegram, possibly after it fed
+    the next frame, or never (`next(...)`, `break`).  All updates of the reassembly state
+    therefore precede the yield of the frame they belong to."""
+    cfg = fr.cfg
+    ys = [n for n in cfg.nodes if n.stmt is not None and n.kind == "stmt" and isinstance(
+        n.stmt, ast.Expr) and isinstance(n.stmt.value, (ast.Yield, ast.YieldFrom))]
+    if not ys:
+        raise AnalysisError("decode_rx_frame: no yield statement")
+    bad = False
+    for y in ys:
+        after = cfg.reachable(y.id) - {y.id}
+        for nid in sorted(after):
+            n = cfg.nodes[nid]
+            st = n.stmt
+            if st is None or n.kind != "stmt":
+                continue
+            tg = st.targets if isinstance(st, (ast.Assign, ast.Delete)) else (
+                [st.target] if isinstance(st, (ast.AugAssign, ast.AnnAssign)) else [])
+            for t in tg:
+                base = t.value if isinstance(t, ast.Subscript) else t
+                if isinstance(base, ast.Attribute) and isinstance(base.value, ast.Name) and \
+                        base.value.id == "self":
+                    bad = True
+                    run.violation(R, "IsoTpStateMachine.decode_rx_frame",
+                                  f"state-after-yield-{base.attr}",
+                                  f"`{stmt_key(st)}` runs after `{stmt_key(y.stmt)}`: the "
+                                  "generator is suspended there, so the state is still the old "
+                                  "one while the consumer handles the telegram and when it "
+                                  "feeds the next frame before resuming (or never resumes)",
+                                  loc(fr.f, st), stmt_key(st))
+    if not bad:
+        run.ok(R, "IsoTpStateMachine.decode_rx_frame", f"no state update follows any of the "
+               f"{len(ys)} yield statements", fr.f.loc)
 
 
 def state_writers(prog: Program, fr: Frame, run: Run, R: str) -> None:
